@@ -28,7 +28,7 @@ _logger = logging.getLogger(__name__)
 
 
 class OscInterface(ABC):
-    _recv_functions = set()
+    _recv_functions = dict()  # Insertion ordered.
     _local_endpoints = dict()
 
     def __init__(self, port=None, port_range=1):
@@ -63,12 +63,12 @@ class OscInterface(ABC):
             addr: A NetAddr object with sender's address.
             port: Local port as int.
         '''
-        cls._recv_functions.add(func)
+        cls._recv_functions[func] = None
 
     @classmethod
     def remove_recv_func(cls, func):
         '''Unregister func callback.'''
-        cls._recv_functions.discard(func)
+        cls._recv_functions.pop(func, None)
 
     def _msg_dispatch(self, addr, time, *msg):
         '''
